@@ -427,3 +427,7 @@ func init() {
 		return false
 	}
 }
+
+func init() {
+	externals["runtime/debug.Stack"] = func(fr *frame, a []value) value { return strBytes("goroutine 1 [running]:\nverif\n") }
+}
